@@ -54,6 +54,12 @@ def run(ctx, rep):
         for k in range(ctx.n(1, 6)):
             frame = rbytes(rng, n)
             bcases.append((rbytes(rng, 4), rbytes(rng, 8), rng.choice(IDS[:-1] + [rng.randrange(2 ** 64)]), rbytes(rng, 12), frame))
+    # frames whose own last byte(s) equal the PKCS7 pad value of their length (an unpadder that strips greedily eats them)
+    for n in range(1, 256 if ctx.deep else 130):
+        pad = 16 - n % 16
+        for k in (1, min(n, 3), min(n, pad)):
+            frame = rbytes(rng, n - k) + [pad] * k
+            bcases.append((rbytes(rng, 4), rbytes(rng, 8), rng.choice(IDS[:-1]), rbytes(rng, 12), frame))
     bo = ctx.model.batch([(F_BUILD, [m, t, F.le(did), h, f]) for m, t, did, h, f in bcases])
     pkts = [o[1][0] for o in bo]
     dm = ctx.model.batch([(F_DEC, [p]) for p in pkts])
